@@ -23,6 +23,10 @@ var shapeCatalogue = [][2]string{
 	{"type-mutual-include", "APPLICATION app1();\nWORKSPACE W (\n  TYPE t1 (a int32, t2);\n  TYPE t2 (b int32, t1);\n);\n"},
 	{"type-include-3", "APPLICATION app1();\nWORKSPACE W (\n  TYPE t1 (a int32, t2);\n  TYPE t2 (b int32, t3);\n  TYPE t3 (c int32, t1);\n  TABLE d INHERITS sys.CDoc (t1);\n);\n"},
 	{"table-includes-cyclic-type", "APPLICATION app1();\nWORKSPACE W (\n  TYPE t1 (a int32, t1);\n  TABLE d INHERITS sys.CDoc (x int32, t1, UNIQUE (a));\n);\n"},
+	{"type-self-include-uniquefield", "APPLICATION app1();\nWORKSPACE W (\n  TYPE t1 (a int32, t1, UNIQUEFIELD x);\n);\n"},
+	{"table-cyclic-types-uniquefield", "APPLICATION app1();\nWORKSPACE W (\n  TYPE t1 (a int32, t2);\n  TYPE t2 (b int32, t1);\n  TABLE d INHERITS sys.CDoc (c int32, t1, UNIQUEFIELD zz);\n);\n"},
+	{"table-cyclic-type-unique-unknown", "APPLICATION app1();\nWORKSPACE W (\n  TYPE t1 (a int32, t1);\n  TABLE d INHERITS sys.CDoc (c int32, t1, UNIQUE (c, zz));\n);\n"},
+	{"table-two-field-sets-uniquefield", "APPLICATION app1();\nWORKSPACE W (\n  TYPE t1 (x int32);\n  TYPE t2 (y int32);\n  TABLE d INHERITS sys.CDoc (c int32, t1, t2, UNIQUEFIELD x);\n);\n"},
 	{"type-self-container", "APPLICATION app1();\nWORKSPACE W (\n  TYPE t1 (a int32, me t1);\n);\n"},
 	{"table-inherits-itself", "APPLICATION app1();\nWORKSPACE W (\n  ABSTRACT TABLE b1 INHERITS b1 ();\n  TABLE leaf INHERITS b1 ();\n);\n"},
 	{"table-lasso", "APPLICATION app1();\nWORKSPACE W (\n  ABSTRACT TABLE a1 INHERITS b1 ();\n  ABSTRACT TABLE b1 INHERITS c1 ();\n  ABSTRACT TABLE c1 INHERITS b1 ();\n  TABLE leaf INHERITS a1 (x TABLE n INHERITS a1 ());\n);\n"},
@@ -89,6 +93,70 @@ func grantsInPackages(n int) []c17.PkgText {
 			"WORKSPACE W%[1]d (\n  TABLE t%[1]d INHERITS sys.CDoc (a int32);\n  ROLE r%[1]d;\n  GRANT SELECT ON TABLE t%[1]d TO r%[1]d;\n  REVOKE SELECT ON TABLE t%[1]d FROM r%[1]d;\n);\n", i)}})
 	}
 	return withSys(pkgs)
+}
+
+// ---- container fields: `name TableName` in a table, the record table declared somewhere else ----
+
+var containerDocs = [][2]string{{"CDoc", "CRecord"}, {"WDoc", "WRecord"}, {"ODoc", "ORecord"}, {"CSingleton", "CRecord"},
+	{"WSingleton", "WRecord"}, {"CRecord", "CRecord"}, {"WRecord", "WRecord"}, {"ORecord", "ORecord"}}
+var containerRecs = []string{"CRecord", "WRecord", "ORecord"}
+var containerPlacements = []string{"same-ws-before", "same-ws-after", "base-ws-before", "base-ws-after", "base2-ws-after",
+	"other-file-before", "other-file-after", "other-package-low", "other-package-high", "in-nested-base-after", "via-field-set-base-after"}
+
+// containerProgram: a table of kind doc with a field `items rec`, rec a record table of kind rec, placed
+// as the placement says. Right family: must compile and build; wrong family: the compiler must refuse it.
+func containerProgram(doc, rec, placement string) []c17.PkgText {
+	recT := "  TABLE rec INHERITS sys." + rec + " (x int32);\n"
+	field := "items rec"
+	docT := func(f string) string { return "  TABLE doc INHERITS sys." + doc + " (a int32, " + f + ");\n" }
+	app := "APPLICATION app1();\n"
+	one := func(src string) []c17.PkgText {
+		return withSys([]c17.PkgText{{Path: "github.com/verif/app1", Files: []string{app + src}}})
+	}
+	base := "ABSTRACT WORKSPACE Base (\n" + recT + ");\n"
+	w := func(inh, body string) string { return "WORKSPACE W " + inh + "(\n" + body + ");\n" }
+	switch placement {
+	case "same-ws-before":
+		return one(w("", recT+docT(field)))
+	case "same-ws-after":
+		return one(w("", docT(field)+recT))
+	case "base-ws-before":
+		return one(base + w("INHERITS Base ", docT(field)))
+	case "base-ws-after":
+		return one(w("INHERITS Base ", docT(field)) + base)
+	case "base2-ws-after":
+		return one(w("INHERITS Mid ", docT(field)) + "ABSTRACT WORKSPACE Mid INHERITS Base ();\n" + base)
+	case "other-file-before":
+		return withSys([]c17.PkgText{{Path: "github.com/verif/app1", Files: []string{base, app + w("INHERITS Base ", docT(field))}}})
+	case "other-file-after":
+		return withSys([]c17.PkgText{{Path: "github.com/verif/app1", Files: []string{app + w("INHERITS Base ", docT(field)), base}}})
+	case "other-package-low", "other-package-high":
+		other := map[string]string{"other-package-low": "aaa", "other-package-high": "zzz"}[placement]
+		return withSys([]c17.PkgText{
+			{Path: "github.com/verif/app1", Files: []string{"IMPORT SCHEMA 'github.com/verif/" + other + "';\nAPPLICATION app1( USE " + other + "; );\n" +
+				w("INHERITS "+other+".Base ", docT("items "+other+".rec"))}},
+			{Path: "github.com/verif/" + other, Files: []string{base}}})
+	case "in-nested-base-after":
+		return one(w("INHERITS Base ", docT("n TABLE nn ("+field+")")) + base)
+	case "via-field-set-base-after":
+		return one(w("INHERITS Base ", "  TYPE fs (b int32);\n"+docT("fs, "+field)) + base)
+	}
+	return nil
+}
+
+func containerShape(r *kit.Rng, n int) ([]c17.PkgText, string) {
+	// wrong families twice as often as right ones; the placements are cycled through
+	placement := containerPlacements[n%len(containerPlacements)]
+	d := containerDocs[r.Intn(len(containerDocs))]
+	rec := d[1]
+	verdict := "right-family"
+	if n%3 != 0 {
+		for rec == d[1] {
+			rec = containerRecs[r.Intn(len(containerRecs))]
+		}
+		verdict = "wrong-family"
+	}
+	return containerProgram(d[0], rec, placement), "shape:container-" + verdict + ":" + placement + ":" + d[0] + "-" + rec
 }
 
 // ---- statement-level mutations of a shipped program ----
@@ -304,7 +372,12 @@ func mutateStatements(r *kit.Rng, prog []c17.PkgText) ([]c17.PkgText, string) {
 				if o < 0 || toks[o] != "(" {
 					continue
 				}
-				res[pi].Files[fi] = join(toks[:o+1]) + name + ", " + join(toks[o+1:])
+				extra := ""
+				if r.Chance(1, 2) {
+					extra = "UNIQUEFIELD zznone, "
+					m = "self-include-uniquefield"
+				}
+				res[pi].Files[fi] = join(toks[:o+1]) + name + ", " + extra + join(toks[o+1:])
 			default:
 				inh := nextSig(n)
 				if inh < 0 || toks[inh] != "INHERITS" {
